@@ -1,5 +1,6 @@
 import FsutilModel.Props.C12
 import FsutilModel.Model.RecvProto
+import FsutilModel.Lemmas.C03Anc
 /-! # C03 — Receiver containment -/
 namespace Fsm.C03
 
@@ -22,5 +23,34 @@ theorem link_source_was_sent (seen seen' : List Path) (s : StatE) (h : R.hardlin
 
 /-- F1 witness kept: the unrepaired model accepts STAT ".." -/
 theorem dotdot_was_accepted : vrun false [⟨false, dd, true⟩] = .accept := by decide
+
+/-- **No component of an accepted path is of the peer's making, except as a directory**: in a sequence the repaired
+validator accepts (verbatim `HandleChange`, every length, any byte strings), every ancestor path of every entry - its parent,
+the parent's parent, … up to the top level - was announced EARLIER in the same sequence as a directory (and not deleted).
+`C03A.Anc q p`: `q` is reached from `p` by iterating `filepath.Dir`. -/
+theorem every_component_is_an_announced_directory (cs : List Chg) (h : vrun true cs = .accept)
+    (pre : List Chg) (x : Chg) (post : List Chg) (hs : cs = pre ++ x :: post) (q : Path) (hq : C03A.Anc q x.path) :
+    ∃ y ∈ pre, y.path = q ∧ y.isDir = true ∧ y.isDel = false :=
+  C03A.ancestors_announced cs h pre.length pre x post rfl hs q hq
+
+/-- … and an accepted sequence announces no path twice (it is strictly ascending), so the directory found above is the only
+entry the peer ever announced at that path: a stream cannot first announce `a/` and `a/b` and then turn `a` into a symlink. -/
+theorem nothing_is_announced_twice (cs : List Chg) (h : vrun true cs = .accept)
+    (pre : List Chg) (x : Chg) (post : List Chg) (hs : cs = pre ++ x :: post) : ∀ y ∈ pre, y.path ≠ x.path :=
+  C03A.announced_once cs h pre x post hs
+
+/-- the premises are met by `a/`, `a/b/`, `a/b/c`, and `a` is an ancestor of `a/b/c` in the sense of the statement -/
+example : vrun true [⟨false, [97], true⟩, ⟨false, [97, 47, 98], true⟩, ⟨false, [97, 47, 98, 47, 99], false⟩] = .accept ∧
+    C03A.Anc [97] [97, 47, 98, 47, 99] := by
+  refine ⟨by decide, ?_⟩
+  have h1 : parentOf [97, 47, 98, 47, 99] = [97, 47, 98] := by decide
+  have h2 : parentOf [97, 47, 98] = [97] := by decide
+  refine C03A.Anc.up _ _ (by decide) ?_
+  rw [h1]
+  have := C03A.Anc.parent [97, 47, 98] (by decide)
+  rwa [h2] at this
+
+/-- … and the validator rejects the sequence that puts an entry below a symlink (a non-directory) it announced -/
+example : vrun true [⟨false, [97], false⟩, ⟨false, [97, 47, 98], false⟩] = .rejectAt 1 := by decide
 
 end Fsm.C03
